@@ -231,3 +231,10 @@ def run(ctx):
     if ctx.nshards == 1:
         for cls in M.ERROR_CLASSES:
             ctx.require(f"injected:{cls}")
+
+
+def passive(ctx, fl, probe):
+    """attach this property's always-on monitor to a foreign workload (the repository's test-suite, see vf/pytest_plugin.py)"""
+    mon = RejectionMonitor(ctx, fl)
+    mon.install(probe)
+    return None
